@@ -241,6 +241,23 @@ static std::string doOp(const std::vector<std::string>& a) {
             DOMNode* n = node(a[2]);
             if (!d || !n || d->getNodeType() != DOMNode::DOCUMENT_NODE) return "skip";
             std::vector<XMLCh> ns = unhex(a[3]), nm = unhex(a[4]);
+            // NOT MODELLED (skipped on both sides, same predicate in ocaml/C13/driver.ml.in `rn_unmodelled`): an attribute that is
+            // on an element is renamed into a namespace-aware attribute while the element holds ANOTHER attribute that has the
+            // new nodeName under a different (namespaceURI, localName) key, or the same key under a different nodeName.
+            // renameNode puts the attribute back with setAttributeNodeNS, which keys on (namespaceURI, localName): the two then
+            // coexist / the other one is replaced -- DOM Level 2 behaviour that model and reference DOM (keyed by nodeName) lack.
+            if (n->getNodeType() == DOMNode::ATTRIBUTE_NODE && ((DOMAttr*)n)->getOwnerElement() &&
+                (a[3] != "-" || n->getLocalName() != 0)) {
+                DOMElement* el = ((DOMAttr*)n)->getOwnerElement();
+                const XMLCh* nsp = a[3] == "-" ? 0 : ns.data();
+                size_t len = 0, ncol = 0, cpos = 0;
+                for (; nm[len]; ++len) if (nm[len] == ':') { ++ncol; cpos = len; }
+                const XMLCh* loc = (ncol == 1 && cpos > 0 && cpos + 1 < len) ? nm.data() + cpos + 1 : nm.data();
+                DOMAttr* b = el->getAttributeNode(nm.data());
+                if (b && b != n && (b->getLocalName() == 0 || !XMLString::equals(b->getNamespaceURI(), nsp))) return "skip";
+                DOMAttr* b2 = el->getAttributeNodeNS(nsp, loc);
+                if (b2 && b2 != n && b2->getLocalName() != 0 && !XMLString::equals(b2->getNodeName(), nm.data())) return "skip";
+            }
             DOMNode* r = ((DOMDocument*)d)->renameNode(n, a[3] == "-" ? 0 : ns.data(), nm.data());
             reg(r);
             return "n" + ix(r);
